@@ -392,6 +392,24 @@ func (e *Explorer) instrs(fn *ssa.Function, b *ssa.BasicBlock, from int, st *Sta
 			return
 		case *ssa.Call:
 			name := ShortCallee(&x.Call)
+			if e.Atom != nil {
+				if a, ok := e.Atom(x); ok {
+					// a seeded call is not explored
+					st.env[x] = a
+					e.effect(in, st)
+					continue
+				}
+			}
+			if e.Effect != nil {
+				if l := e.Effect(in, st); l != "" {
+					// a call that is itself a tracked effect is opaque
+					st.effects = append(st.effects, l)
+					if !pureCall(name) {
+						st.fields = map[string]AVal{}
+					}
+					continue
+				}
+			}
 			if e.NoReturn != nil && e.NoReturn(name) {
 				e.effect(in, st)
 				e.Paths++
@@ -610,4 +628,37 @@ func (e *Explorer) NewState(seed map[ssa.Value]AVal) *State {
 		st.env[k] = v
 	}
 	return st
+}
+
+// RunFrom explores fn starting right after instruction `after`.
+func (e *Explorer) RunFrom(fn *ssa.Function, after ssa.Instruction, seed map[ssa.Value]AVal) []Outcome {
+	if e.MaxVisits == 0 {
+		e.MaxVisits = 2
+	}
+	if e.MaxDepth == 0 {
+		e.MaxDepth = 3
+	}
+	st := e.NewState(seed)
+	st.defers = [][]*ssa.Defer{nil}
+	// defers registered before `after` in dominating positions are active
+	for _, b := range fn.Blocks {
+		for _, in := range b.Instrs {
+			if d, ok := in.(*ssa.Defer); ok && Dominates(d, after) {
+				st.defers[0] = append(st.defers[0], d)
+			}
+		}
+	}
+	var outs []Outcome
+	e.instrs(fn, after.Block(), InstrIndex(after)+1, st, func(o Outcome) { outs = append(outs, o) })
+	seen := map[string]bool{}
+	var uniq []Outcome
+	for _, o := range outs {
+		k := o.Key()
+		if !seen[k] {
+			seen[k] = true
+			uniq = append(uniq, o)
+		}
+	}
+	sort.Slice(uniq, func(i, j int) bool { return uniq[i].Key() < uniq[j].Key() })
+	return uniq
 }
